@@ -389,3 +389,16 @@ impl TryFrom<&ClusterHierarchy> for HierarchyIndex {
         Ok(index)
     }
 }
+
+/// Verification-only seam: renders the medoid index tour state (its tier type is private to this module).
+/// Compiled only with `--cfg reinterpretcat_vrp_verif`; shipped builds are unaffected.
+#[cfg(reinterpretcat_vrp_verif)]
+pub fn verif_render_medoid_index(value: &(dyn std::any::Any + Send + Sync)) -> Option<String> {
+    value.downcast_ref::<HashMap<Tier, HashSet<Location>>>().map(|index| {
+        let sorted = index
+            .iter()
+            .map(|(tier, locations)| (tier.0, locations.iter().copied().collect::<std::collections::BTreeSet<_>>()))
+            .collect::<std::collections::BTreeMap<_, _>>();
+        format!("medoids:{sorted:?}")
+    })
+}
